@@ -83,10 +83,16 @@ var errBodyClosed = errors.New("read on closed response body")
 // closeAware is a response body that records Close.
 type closeAware struct {
 	io.Reader
-	closed *atomic.Bool
+	closed   *atomic.Bool
+	closeErr error
 }
 
-func (c closeAware) Close() error { c.closed.Store(true); return nil }
+func (c closeAware) Close() error {
+	c.closed.Store(true)
+	return c.closeErr
+}
+
+var errBodyCloseFailed = errors.New("closing the response body failed")
 
 type blockBody struct {
 	ch    chan struct{}
@@ -223,7 +229,7 @@ func runClient(t *testing.T, sc *cScript) (obs *cObs) {
 		var body io.Reader
 		switch {
 		case sc.Body == "nil":
-		case sc.Body == "nobody":
+		case sc.Body == "nobody" || sc.Body == "nobody_getbody":
 			body = http.NoBody
 		case sc.Body == "bytes":
 			body = bytes.NewReader([]byte(cBodyText))
@@ -250,6 +256,13 @@ func runClient(t *testing.T, sc *cScript) (obs *cObs) {
 					return nil, errGetBody
 				}
 				return io.NopCloser(strings.NewReader(cBodyText)), nil
+			}
+		} else if sc.Body == "nobody_getbody" {
+			// a request without a body that still has a GetBody (a template built for POST, cloned and
+			// stripped of its body): there is nothing to re-obtain
+			req.GetBody = func() (io.ReadCloser, error) {
+				obs.GetBodyCalls++
+				return io.NopCloser(strings.NewReader("body of the template this request was cloned from")), nil
 			}
 		} else if sc.Body == "closeonce" {
 			// a body whose second Close fails (like *os.File), re-opened by GetBody
@@ -291,6 +304,10 @@ func runClient(t *testing.T, sc *cScript) (obs *cObs) {
 			}
 			sp := sc.Attempts[a]
 			var bodyClosed atomic.Bool
+			var closeErr error
+			if (a+len(sc.Attempts))%3 == 0 {
+				closeErr = errBodyCloseFailed // a third of the bodies fail to close; nobody's result depends on it
+			}
 			if sp.Latency > 0 {
 				time.Sleep(time.Duration(sp.Latency))
 			}
@@ -367,7 +384,7 @@ func runClient(t *testing.T, sc *cScript) (obs *cObs) {
 				}
 			}
 			return &http.Response{Status: "200 OK", StatusCode: 200, Proto: "HTTP/1.1", ProtoMajor: 1, ProtoMinor: 1,
-				Header: http.Header{"Content-Type": []string{"text/event-stream; charset=utf-8"}}, Body: closeAware{cr, &bodyClosed}, Request: r, ContentLength: -1}, nil
+				Header: http.Header{"Content-Type": []string{"text/event-stream; charset=utf-8"}}, Body: closeAware{cr, &bodyClosed, closeErr}, Request: r, ContentLength: -1}, nil
 		})
 		cl := &sse.Client{
 			HTTPClient: &http.Client{Transport: rt},
